@@ -74,3 +74,50 @@ Theorem c04_readonly_refuses_is_source :
      match body f with SIf [] _ (SReturn _ :: _) [] :: _ => True | _ => False end).
 Proof. exact Decisions.readonly_refuses. Qed.
 Print Assumptions c04_readonly_refuses_is_source.
+
+(* ---------------------------------------------------------------------------------------------- *)
+(* ON BYTES (DSnapshot.v): why a snapshot stays readable.  It holds the trees the original had at that moment and loads
+   their records lazily from the shared file; the original only ever appends.  Along any history meeting C02's side
+   conditions, what was current after step i is still represented by the file as it is after any later step j, record
+   for record, as long as no FlushRevert lies in between -- and FlushRevert is exactly what breaks it (which is why
+   FlushRevert on the original is not among the operations a snapshot survives). *)
+From GK Require Import Codec Disk DiskProofs DStore DStoreRefine DSnapshot.
+From Coq Require Import ZArith.
+
+Theorem c04_original_only_appends :
+  forall ds s ends o ds' r,
+  R ds s ends -> op_okb ds o = true -> ops_ok (s_cmpreg s) [o] -> is_revert o = false ->
+  dstep ds o = (ds', r) ->
+  agree (d_file ds) (d_file ds') (d_size ds) /\ (d_size ds <= d_size ds')%Z.
+Proof. exact DSnapshot.step_appends. Qed.
+Print Assumptions c04_original_only_appends.
+
+Theorem c04_snapshot_stays_readable :
+  forall ops i j si sj,
+  ops_ok [] ops -> history_ok ops ->
+  (i <= j)%nat ->
+  nth_error (dstates dinit ops) i = Some si -> nth_error (dstates dinit ops) j = Some sj ->
+  forallb (fun o => negb (is_revert o)) (firstn (j - i) (skipn (S i) ops)) = true ->
+  readable (d_file si) si /\ readable (d_file sj) si.
+Proof. exact DSnapshot.snapshot_stays_readable. Qed.
+Print Assumptions c04_snapshot_stays_readable.
+
+Theorem c04_snapshot_loads_same :
+  forall ops i j si sj nc,
+  ops_ok [] ops -> history_ok ops -> (i <= j)%nat ->
+  nth_error (dstates dinit ops) i = Some si -> nth_error (dstates dinit ops) j = Some sj ->
+  forallb (fun o => negb (is_revert o)) (firstn (j - i) (skipn (S i) ops)) = true ->
+  In nc (d_cur si) -> persisted (c_tree (snd nc)) ->
+  (Treap.size (c_tree (snd nc)) <= S (List.length (d_file sj)))%nat ->
+  load (S (List.length (d_file sj))) (d_file sj) (root_loc (c_tree (snd nc))) (d_size si) (S (List.length (d_file sj)))
+  = Some (c_tree (snd nc), (S (List.length (d_file sj)) - Treap.size (c_tree (snd nc)))%nat).
+Proof. exact DSnapshot.snapshot_loads_same. Qed.
+Print Assumptions c04_snapshot_loads_same.
+
+Theorem c04_revert_breaks_snapshots_refuted :
+  exists ops i j si sj,
+  ops_ok [] ops /\ history_ok ops /\ (i <= j)%nat /\
+  nth_error (dstates dinit ops) i = Some si /\ nth_error (dstates dinit ops) j = Some sj /\
+  ~ readable (d_file sj) si.
+Proof. exact DSnapshot.revert_breaks_snapshots. Qed.
+Print Assumptions c04_revert_breaks_snapshots_refuted.
